@@ -301,6 +301,23 @@ def main(argv):
                         want = [expected_item(stmt) + ((2, 4),), ("z=0", None, None, (5, 5))]
                         if items != want:
                             fail("reader#fixed.same_statements", dict(source=src), dict(items=items, expected=want))
+        # a zero in column 6 marks an initial line like a blank does (the label is in columns 1-5 only)
+        for stmt in STATEMENTS:
+            label, name, toks = stmt
+            hd = (("%s: " % name) if name else "")
+            body = hd + tokens_text(toks)
+            lab = ("%5d" % label) if label is not None else "     "
+            for lab_text in (lab, lab.strip().ljust(5) if label is not None else lab):
+                src = "      y = 1\n" + lab_text + "0" + body + "\n" + "      z = 0\n"
+                cases += 1
+                try:
+                    items = [(i2[1], i2[2], i2[3], i2[4]) for i2 in read_items(src, ignore_comments=True, free=False)]
+                except BaseException as e:  # noqa
+                    fail("reader#fixed.zero_in_column_6_is_an_initial_line", dict(source=src), "%s: %s" % (type(e).__name__, e))
+                    continue
+                want = [("y=1", None, None, (1, 1)), expected_item(stmt) + ((2, 2),), ("z=0", None, None, (3, 3))]
+                if items != want:
+                    fail("reader#fixed.zero_in_column_6_is_an_initial_line", dict(source=src), dict(items=items, expected=want))
         # three physical lines (quote state must be carried over more than one continuation line)
         for stmt in STATEMENTS:
             label, name, toks = stmt
